@@ -32,12 +32,12 @@ TABLE = {
     "C20": dict(text="TLC checks, for every history of <=3-4 inserts/clears over 3 keys x 2 values and every lookup, that the "
                      "nested-dict mechanism with a complete descent equals the reference store (design level); the same histories "
                      "and random longer ones are replayed on the real IndexedCache with every lookup probed after every operation "
-                     "and judged by TLC against the reference; histories the reference rejects are re-judged against the "
-                     "mechanism with the code's descent to decide known finding F1 vs. violation.",
+                     "and judged by TLC against the reference (entries as a multiset), over an ordinary and a falsy value "
+                     "alphabet; TLC also shows that the descent the code had before the repair of 37f0dc8 breaks the contract.",
                 technique="TLA+ reference store vs mechanism model checked by TLC + exported histories replayed on IndexedCache + TLC trace validation",
                 ref="7 C20",
-                note="Trusted: TLC, CacheIndexOps (reference + mechanism), the index replay runner. Known finding F1 "
-                     "(known_findings.json) is suppressed only for histories the deviation model predicts exactly."),
+                note="Trusted: TLC, CacheIndexOps (reference + mechanism), the index replay runner. The former finding F1 was "
+                     "repaired (known_findings.json, fixed:); nothing is suppressed."),
     "C08": dict(text="TLC explores every interleaving (depth-bounded, 3 nested blocks, 2 iterators) of block entry/exit (5 block "
                      "kinds, normal/exceptional exit) with iterator new/next/close/drop/drain and checks that the mechanism "
                      "(context variable + saved previous values) keeps the mode equal to what the open blocks prescribe; every "
@@ -73,8 +73,10 @@ TABLE = {
                      "evaluation against the denotation and requires equal row sets; runs without cache retrievals do not "
                      "count as non-trivial. Query construction is a step of the history (built under caching off, evaluated "
                      "under caching on). TLC also model-checks the mechanism model of the operator caches (EQLMech3: first "
-                     "evaluation and re-evaluation equal the denotation; with the code's incomplete index descent it derives "
-                     "finding F2) and the trace specification requires that model to predict every cached evaluation's exact rows.",
+                     "evaluation and re-evaluation equal the denotation; with the incomplete index descent the code had before "
+                     "commit 37f0dc8 it derives the former finding F2) and the trace specification requires that model to predict "
+                     "every cached evaluation's exact rows. Rule trees with next_rule branches are compared across evaluations and "
+                     "configurations only (open finding F3).",
                 technique="TLA+ denotational spec + mechanism model of the operator caches (EQLMech3) model checked by TLC + TLC-generated programs and build/configure/evaluate histories replayed + TLC trace validation",
                 ref="7 C05"),
     "C10": dict(text="TLC's builder machine generates for_all(u, c) / for_all(u.n, c) with every condition tree over leaves on the "
